@@ -119,6 +119,17 @@ def run(chk):
         if i not in ("err unchanged", "err empty"):
             chk.violate({"kind": "property", "case": lib.show_case(c), "impl": i[:1000], "malformed_class": k,
                          "explanation": "Dependency.UnmarshalControl returned an error for a malformed field (%s) and left relations of that field in the receiver (an error and a result)" % k})
+    # an UNTERMINATED clause in front of a separator and a later clause of the same kind (one closing character of a valid field
+    # deleted): the later clause's closer must not terminate the earlier one
+    uc2 = []
+    for sep in (b", ", b" | ", b",", b"|"):
+        for a_, b_ in ((b"foo (>= 1.0", b"bar (>= 2.0)"), (b"foo [amd64", b"bar [i386]"), (b"foo <cross", b"bar <nocheck>"), (b"${misc:Depends", b"${shlibs:Depends}"),
+                       (b"foo (>= 1.0", b"bar [amd64] (<< 3)"), (b"x:any [!i386", b"y [!amd64]")):
+            uc2.append(("dparse", [a_ + sep + b_]))
+    for c, r in zip(uc2, chk.run_impl(uc2)):
+        if r != "err":
+            chk.violate({"kind": "property", "class": "clause-swallows-separator", "case": lib.show_case(c), "impl": r[:300],
+                         "explanation": "an unterminated paren, bracket, profile group or substvar swallowed the separator and was closed by a later clause's closing character"})
     chk.extra["malformed_classes"] = sorted(set(kinds))
     # single-edit corruptions of valid fields: model vs implementation (ok/err and structure)
     cases = []
